@@ -20,6 +20,7 @@ class SourceModule(Object):
         self.filename = filename
         self.mtime = getmtime(filename)
         self.declared_at = 1, 0
+        self._analysing = False
 
     def __repr__(self):
         # type: () -> str
@@ -34,12 +35,18 @@ class SourceModule(Object):
     def scope(self):
         # type: () -> SourceScope
         source = Source(open(self.filename).read(), self.filename)
-        scope = extract_scope(source, self.project)
+        self._analysing = True
+        try:
+            scope = extract_scope(source, self.project)
+        finally:
+            self._analysing = False
         return scope
 
     @property
     def _attrs(self):
         # type: () -> dict[str, Object | Name]
+        if self._analysing:
+            return {}  # a star-import cycle: this module's names are being collected
         return self.scope.exported_names  # type: ignore[return-value]
 
 
